@@ -3,6 +3,7 @@ Helper lemmas and specification-level definitions for C15 (structural queries of
 -/
 import Mathlib.Tactic.Linarith
 import Mathlib.Tactic.Tauto
+import Mathlib.Tactic.Ring
 import Mathlib.Algebra.Order.Field.Basic
 import Mathlib.Algebra.Order.Field.Rat
 import ChemModel.Model.RSysGraph
@@ -1096,6 +1097,7 @@ reactions, and the group is connected -/
 structure GroupOK (ks : List (List String)) (g : Group) : Prop where
   keys : ∀ k, k ∈ g.2 ↔ ∃ a ∈ g.1, k ∈ keysAt ks a
   conn : ∀ a ∈ g.1, ∀ b ∈ g.1, Reach ks g.1 a b
+  nonempty : g.1 ≠ []
 
 theorem GroupOK.single (ks : List (List String)) (i : Nat) : GroupOK ks ([i], keysAt ks i) where
   keys := by intro k; simp
@@ -1103,9 +1105,14 @@ theorem GroupOK.single (ks : List (List String)) (i : Nat) : GroupOK ks ([i], ke
     intro a ha b hb
     simp only [List.mem_singleton] at ha hb
     subst ha; subst hb; exact .refl _
+  nonempty := by simp
 
 theorem GroupOK.fuse {ks : List (List String)} {g h : Group} (hg : GroupOK ks g) (hh : GroupOK ks h)
     (hs : shares g.2 h.2 = true) : GroupOK ks (g.1 ++ h.1, g.2 ++ h.2) where
+  nonempty := by
+    have := hg.nonempty
+    intro h0
+    exact this (List.append_eq_nil_iff.mp h0).1
   keys := by
     intro k
     simp only [List.mem_append, hg.keys, hh.keys]
@@ -1901,5 +1908,459 @@ theorem foldl_concatRxns_spec (rest : List RSys) (st : List Rxn × List Rxn) :
           obtain ⟨r, hr, hs⟩ := List.any_eq_true.mp hany
           exact ⟨r, h1.subset (List.mem_append_left _ hr), hs⟩
       · exact Or.inr h
+
+/-! ### balanced reactions preserve the element totals; reachable states -/
+
+/-- the net stoichiometry of reaction `r` as a per-substance vector (substance order of `s`) -/
+def netVec (s : RSys) (r : Rxn) : List Rat := s.keys.map fun k => ((r.net k : Int) : Rat)
+
+/-- one reaction step of extent `ξ` (any sign): `c + ξ · ν` -/
+def stepState (c : List Rat) (ξ : Rat) (ν : List Rat) : List Rat := List.zipWith (fun x n => x + ξ * n) c ν
+
+/-- every reaction of the system conserves every element (composition key ≠ 0; charge is skipped like in the code):
+`Σ_i ν_i · atoms_i(k) = 0` -/
+def Balanced (s : RSys) : Prop := ∀ r ∈ s.rxns, ∀ k, k ≠ 0 → elemTotal s (netVec s r) k = 0
+
+/-- the element keys occurring in the compositions of the system -/
+def elementsOf (s : RSys) : List Nat := (compsOf s).flatMap fun comp => comp.map (·.1)
+
+/-- states reachable from `c0` by finitely many reaction steps (forward or backward, any extent) -/
+inductive Reachable (s : RSys) (c0 : List Rat) : List Rat → Prop
+  | start : Reachable s c0 c0
+  | step {c : List Rat} (r : Rxn) (ξ : Rat) : Reachable s c0 c → r ∈ s.rxns → Reachable s c0 (stepState c ξ (netVec s r))
+
+theorem compContribution_lin (skip : List Nat) (k : Nat) (x ξ n : Rat) (comp : Comp) :
+    compContribution skip k (x + ξ * n) comp = compContribution skip k x comp + ξ * compContribution skip k n comp := by
+  induction comp with
+  | nil => simp [compContribution]
+  | cons a t ih =>
+    simp only [compContribution, List.map_cons, List.sum_cons] at ih ⊢
+    rw [ih]
+    split <;> ring
+
+theorem elementTotal_step (skip : List Nat) (k : Nat) (ξ : Rat) (comps : List Comp) (c ν : List Rat)
+    (h1 : c.length = comps.length) (h2 : ν.length = comps.length) :
+    elementTotal skip ((stepState c ξ ν).zip comps) k =
+      elementTotal skip (c.zip comps) k + ξ * elementTotal skip (ν.zip comps) k := by
+  induction comps generalizing c ν with
+  | nil => simp [elementTotal]
+  | cons comp t ih =>
+    cases c with
+    | nil => simp at h1
+    | cons x c' =>
+      cases ν with
+      | nil => simp at h2
+      | cons n ν' =>
+        have := ih c' ν' (by simpa using h1) (by simpa using h2)
+        simp only [elementTotal, stepState, List.zipWith_cons_cons, List.zip_cons_cons, List.map_cons, List.sum_cons] at this ⊢
+        rw [this, compContribution_lin]
+        ring
+
+theorem stepState_length (c ν : List Rat) (ξ : Rat) (h : ν.length = c.length) : (stepState c ξ ν).length = c.length := by
+  simp [stepState, h]
+
+theorem netVec_length (s : RSys) (r : Rxn) : (netVec s r).length = s.ns := by
+  simp [netVec, RSys.keys, RSys.ns]
+
+theorem elemTotal_step (s : RSys) (c : List Rat) (r : Rxn) (ξ : Rat) (k : Nat)
+    (hc : c.length = s.ns) (hcomp : (compsOf s).length = s.ns) :
+    elemTotal s (stepState c ξ (netVec s r)) k = elemTotal s c k + ξ * elemTotal s (netVec s r) k := by
+  simp only [elemTotal]
+  exact elementTotal_step [0] k ξ (compsOf s) c (netVec s r) (by omega) (by rw [netVec_length]; omega)
+
+theorem compContribution_absent (skip : List Nat) (k : Nat) (x : Rat) (comp : Comp) (h : ∀ kv ∈ comp, kv.1 ≠ k) :
+    compContribution skip k x comp = 0 := by
+  induction comp with
+  | nil => simp [compContribution]
+  | cons a t ih =>
+    simp only [compContribution, List.map_cons, List.sum_cons] at ih ⊢
+    rw [ih (fun kv hkv => h kv (by simp [hkv]))]
+    have : a.1 ≠ k := h a (by simp)
+    simp [this]
+
+theorem elementTotal_absent (skip : List Nat) (k : Nat) (cs : List (Rat × Comp)) (h : ∀ p ∈ cs, ∀ kv ∈ p.2, kv.1 ≠ k) :
+    elementTotal skip cs k = 0 := by
+  induction cs with
+  | nil => simp [elementTotal]
+  | cons p t ih =>
+    simp only [elementTotal, List.map_cons, List.sum_cons] at ih ⊢
+    rw [ih (fun q hq => h q (by simp [hq])), compContribution_absent skip k p.1 p.2 (h p (by simp))]
+    simp
+
+theorem elemTotal_absent (s : RSys) (c : List Rat) (k : Nat) (h : k ∉ elementsOf s) : elemTotal s c k = 0 := by
+  apply elementTotal_absent
+  intro p hp kv hkv e
+  apply h
+  simp only [elementsOf, List.mem_flatMap, List.mem_map]
+  exact ⟨p.2, (List.of_mem_zip hp).2, kv, hkv, e⟩
+
+/-- decidable form of `Balanced`: it suffices to look at the elements that occur -/
+theorem balanced_of_elements (s : RSys)
+    (h : ∀ r ∈ s.rxns, ∀ k ∈ elementsOf s, k ≠ 0 → elemTotal s (netVec s r) k = 0) : Balanced s := by
+  intro r hr k hk
+  by_cases hin : k ∈ elementsOf s
+  · exact h r hr k hin hk
+  · exact elemTotal_absent s _ k hin
+
+theorem reachable_totals (s : RSys) (init c : List Rat) (hb : Balanced s) (hi : init.length = s.ns)
+    (hcomp : (compsOf s).length = s.ns) (h : Reachable s init c) :
+    c.length = s.ns ∧ ∀ k, k ≠ 0 → elemTotal s c k = elemTotal s init k := by
+  induction h with
+  | start => exact ⟨hi, fun _ _ => rfl⟩
+  | step r ξ _ hr ih =>
+    obtain ⟨hl, ht⟩ := ih
+    refine ⟨by rw [stepState_length _ _ _ (by rw [netVec_length]; omega)]; exact hl, ?_⟩
+    intro k hk
+    rw [elemTotal_step s _ r ξ k hl hcomp, hb r hr k hk, ht k hk]
+    ring
+
+/-! ### definitional facts kept out of Props -/
+
+theorem firstFailing_none_iff (s : RSys) (checks : List Check) :
+    firstFailing s checks = none ↔ ∀ c ∈ checks, runCheck s c = true := by
+  induction checks with
+  | nil => simp [firstFailing]
+  | cons c t ih =>
+    simp only [firstFailing, List.mem_cons, forall_eq_or_imp]
+    by_cases hc : runCheck s c = true
+    · simp [hc, ih]
+    · simp [hc]
+
+theorem makeFull_missing_ok_iff (rxns : List Rxn) (arg : SubstArg) (cs : List Check) (sort : Option Bool) :
+    (∃ s, RSys.makeFull rxns arg (some cs) none sort true = .ok s) ↔
+      rxns ≠ [] ∧ ∀ c ∈ cs, runCheck ⟨rxns, addMissing (substancesOf rxns arg).1 rxns⟩ c = true := by
+  rw [← firstFailing_none_iff]
+  cases hr : rxns.isEmpty
+  · have hne : rxns ≠ [] := by simpa using hr
+    simp only [RSys.makeFull, Bool.true_and, hr, Bool.false_eq_true, ↓reduceIte, ne_eq, hne, not_false_eq_true, true_and]
+    cases firstFailing ⟨rxns, addMissing (substancesOf rxns arg).1 rxns⟩ cs <;> simp
+  · have he : rxns = [] := by simpa using hr
+    simp [RSys.makeFull, hr, he]
+
+theorem makeFull_refusals (rxns : List Rxn) (arg : SubstArg) (sort : Option Bool) :
+    (∀ cs dc, rxns ≠ [] → RSys.makeFull rxns arg (some cs) (some dc) sort true = .error .bothGiven) ∧
+    (∀ cs dc, RSys.makeFull rxns arg (some cs) (some dc) sort false = .error .bothGiven) ∧
+    (∀ checks dont, RSys.makeFull [] arg checks dont sort true = .error .typeError) := by
+  refine ⟨?_, ?_, ?_⟩
+  · intro cs dc hne
+    have : rxns.isEmpty = false := by simpa using hne
+    simp [RSys.makeFull, this]
+  · intro cs dc; simp [RSys.makeFull]
+  · intro checks dont; simp [RSys.makeFull]
+
+theorem categorizeSigned_nonneg (rxns : List SRxn) (substs : ODict) (l : List Rxn) (hl : rxns.mapM SRxn.toRxn? = some l)
+    (checks : List Check) :
+    categorizeSigned rxns substs checks = match categorize ⟨l, substs⟩ checks with
+      | .ok c => .ok c
+      | .error e => .error (.cat e) := by
+  simp only [categorizeSigned, hl]
+  cases categorize ⟨l, substs⟩ checks <;> rfl
+
+/-- `rs1 == rs2`: same substances (same keys in the same order with equal Substance objects) and pairwise equal
+reactions, where reactions are compared on the four ordered stoichiometry dicts and the parameter — NOT on the name and not
+on the class (`Equilibrium` vs `Reaction`) -/
+theorem RSys.pyEq_spec (a b : RSys) :
+    (a.pyEq b = true ↔ a.substs = b.substs ∧
+      List.Forall₂ (fun x y : Rxn => x.reac = y.reac ∧ x.prod = y.prod ∧ x.param = y.param ∧ x.paramB = y.paramB ∧
+        x.inactReac = y.inactReac ∧ x.inactProd = y.inactProd) a.rxns b.rxns) ∧
+    a.pyEq a = true := by
+  refine ⟨?_, by simp [RSys.pyEq, listPyEq_refl]⟩
+  simp only [RSys.pyEq, Bool.and_eq_true, beq_iff_eq, listPyEq_iff, Rxn.pyEq_iff]
+  exact and_comm
+
+/-! ### counting the groups of `split` -/
+
+/-- the index lists of the groups are pairwise disjoint -/
+def IdxDisj (g h : Group) : Prop := ∀ x ∈ g.1, x ∉ h.1
+
+theorem idx_pairwise (gs : List Group) (h : (flatIdx gs).Nodup) : gs.Pairwise IdxDisj := by
+  induction gs with
+  | nil => exact List.Pairwise.nil
+  | cons g t ih =>
+    rw [flatIdx_cons, List.nodup_append] at h
+    obtain ⟨_, h2, h3⟩ := h
+    refine List.pairwise_cons.mpr ⟨?_, ih h2⟩
+    intro g' hg' x hx hx'
+    exact h3 x hx x (mem_flatIdx.mpr ⟨g', hg', hx'⟩) rfl
+
+theorem idx_pairwise_forall {l : List Group} (h : l.Pairwise IdxDisj) {a b : Group} (ha : a ∈ l) (hb : b ∈ l)
+    (hne : a ≠ b) : IdxDisj a b := by
+  induction l with
+  | nil => simp at ha
+  | cons x t ih =>
+    rw [List.pairwise_cons] at h
+    rcases List.mem_cons.mp ha with e1 | ha <;> rcases List.mem_cons.mp hb with e2 | hb
+    · exact absurd (e1.trans e2.symm) hne
+    · rw [e1]; exact h.1 b hb
+    · rw [e2]; intro y hy hy'; exact h.1 a ha y hy' hy
+    · exact ih h.2 ha hb
+
+theorem reach_same_group (ks : List (List String)) (a b : Nat) (ha : a < ks.length)
+    (h : Reach ks (List.range ks.length) a b) : ∃ g ∈ splitGroups ks, a ∈ g.1 ∧ b ∈ g.1 := by
+  obtain ⟨hok, hperm, hdisj⟩ := splitGroups_inv ks
+  induction h with
+  | refl =>
+    obtain ⟨g, hg, hx⟩ := mem_flatIdx.mp (hperm.symm.subset (by simpa using ha))
+    exact ⟨g, hg, hx, hx⟩
+  | tail hab hc hadj ih =>
+    rename_i b c
+    obtain ⟨g2, hg2, h1, h2⟩ := ih
+    obtain ⟨g3, hg3, hc3⟩ := mem_flatIdx.mp (hperm.symm.subset hc)
+    obtain ⟨k, hkb, hkc⟩ := hadj
+    have hk2 : k ∈ g2.2 := ((hok g2 hg2).keys k).mpr ⟨b, h2, hkb⟩
+    have hk3 : k ∈ g3.2 := ((hok g3 hg3).keys k).mpr ⟨c, hc3, hkc⟩
+    by_cases e : g2 = g3
+    · subst e; exact ⟨g2, hg2, h1, hc3⟩
+    · exact absurd hk3 (pairwise_disj_forall hdisj hg2 hg3 e k hk2)
+
+/-- one representative (the first reaction) per group: a complete system of representatives of the connectivity classes of the
+reaction graph — which is what "the number of groups is the number of connected components" means -/
+theorem splitGroups_reps (ks : List (List String)) :
+    ∃ reps : List Nat, reps.length = (splitGroups ks).length ∧ (∀ r ∈ reps, r < ks.length) ∧
+      (∀ a, a < ks.length → ∃ r ∈ reps, Reach ks (List.range ks.length) r a) ∧
+      reps.Pairwise (fun r r' => ¬ Reach ks (List.range ks.length) r r') := by
+  obtain ⟨hok, hperm, hdisj⟩ := splitGroups_inv ks
+  have hnodup : (flatIdx (splitGroups ks)).Nodup := hperm.nodup_iff.mpr List.nodup_range
+  have hidx := idx_pairwise _ hnodup
+  have hsub : ∀ g ∈ splitGroups ks, ∀ x ∈ g.1, x ∈ List.range ks.length := fun g hg x hx =>
+    hperm.subset (mem_flatIdx.mpr ⟨g, hg, hx⟩)
+  have hhead : ∀ g ∈ splitGroups ks, g.1.headD 0 ∈ g.1 := by
+    intro g hg
+    have := (hok g hg).nonempty
+    cases hl : g.1 with
+    | nil => exact absurd hl this
+    | cons a t => simp
+  refine ⟨(splitGroups ks).map (fun g => g.1.headD 0), by simp, ?_, ?_, ?_⟩
+  · intro r hr
+    obtain ⟨g, hg, rfl⟩ := List.mem_map.mp hr
+    simpa using hsub g hg _ (hhead g hg)
+  · intro a ha
+    obtain ⟨g, hg, hag⟩ := mem_flatIdx.mp (hperm.symm.subset (by simpa using ha))
+    exact ⟨g.1.headD 0, List.mem_map_of_mem hg, ((hok g hg).conn _ (hhead g hg) a hag).mono (hsub g hg)⟩
+  · rw [List.pairwise_map]
+    refine hidx.imp_of_mem ?_
+    intro g g' hg hg' hP hreach
+    obtain ⟨g2, hg2, h1, h2⟩ := reach_same_group ks _ _ (by simpa using hsub g hg _ (hhead g hg)) hreach
+    by_cases e : g2 = g
+    · subst e; exact hP _ h2 (hhead g' hg')
+    · exact idx_pairwise_forall hidx hg2 hg e _ h1 (hhead g hg)
+
+/-! ### per_substance_varied; categorize with requested checks -/
+
+theorem variedRows_length {α : Type} (base : List (String × α)) (ord : List (String × List α)) :
+    (variedRows base ord).length = (ord.map (·.2.length)).prod := by
+  induction ord with
+  | nil => simp [variedRows]
+  | cons kv t ih =>
+    obtain ⟨k, vals⟩ := kv
+    simp only [variedRows, List.map_cons, List.prod_cons]
+    induction vals with
+    | nil => simp
+    | cons v vs ihv =>
+      simp only [List.flatMap_cons, List.length_append, List.length_map, ih, List.length_cons] at ihv ⊢
+      rw [ihv]; ring
+
+theorem variedRows_keys {α : Type} (base : List (String × α)) (ord : List (String × List α)) :
+    ∀ row ∈ variedRows base ord, row.map (·.1) = base.map (·.1) := by
+  induction ord with
+  | nil => simp [variedRows]
+  | cons kv t ih =>
+    obtain ⟨k, vals⟩ := kv
+    intro row hrow
+    simp only [variedRows, List.mem_flatMap, List.mem_map] at hrow
+    obtain ⟨v, _, row', hrow', rfl⟩ := hrow
+    rw [← ih row' hrow', List.map_map]
+    apply List.map_congr_left
+    intro kv _
+    simp only [Function.comp]
+    split
+    · rename_i h; exact h.symm
+    · rfl
+
+theorem variedRows_entries {α : Type} (base : List (String × α)) (ord : List (String × List α)) :
+    ∀ row ∈ variedRows base ord, ∀ kv ∈ row,
+      (kv ∈ base ∧ ∀ p ∈ ord, p.1 ≠ kv.1) ∨ ∃ vals, (kv.1, vals) ∈ ord ∧ kv.2 ∈ vals := by
+  induction ord with
+  | nil => intro row hrow kv hkv; simp only [variedRows, List.mem_singleton] at hrow; subst hrow; exact Or.inl ⟨hkv, by simp⟩
+  | cons p t ih =>
+    obtain ⟨k, vals⟩ := p
+    intro row hrow kv hkv
+    simp only [variedRows, List.mem_flatMap, List.mem_map] at hrow
+    obtain ⟨v, hv, row', hrow', rfl⟩ := hrow
+    obtain ⟨kv', hkv', rfl⟩ := List.mem_map.mp hkv
+    by_cases hk : kv'.1 = k
+    · simp only [hk, ↓reduceIte]
+      exact Or.inr ⟨vals, by simp, hv⟩
+    · simp only [hk, ↓reduceIte]
+      rcases ih row' hrow' kv' hkv' with ⟨h1, h2⟩ | ⟨vals', h1, h2⟩
+      · left
+        refine ⟨h1, ?_⟩
+        intro p hp
+        rcases List.mem_cons.mp hp with rfl | hp
+        · exact fun e => hk e.symm
+        · exact h2 p hp
+      · exact Or.inr ⟨vals', by simp [h1], h2⟩
+
+
+theorem zip_nodup_get {α : Type} (ks : List String) (base : List α) (hn : ks.Nodup) (j : Nat) (k : String) (x : α)
+    (hj : ks[j]? = some k) (hx : (k, x) ∈ ks.zip base) : base[j]? = some x := by
+  induction ks generalizing base j with
+  | nil => simp at hj
+  | cons a t ih =>
+    cases base with
+    | nil => simp at hx
+    | cons b u =>
+      simp only [List.nodup_cons] at hn
+      simp only [List.zip_cons_cons, List.mem_cons, Prod.mk.injEq] at hx
+      cases j with
+      | zero =>
+        simp only [List.getElem?_cons_zero, Option.some.injEq] at hj ⊢
+        rcases hx with ⟨_, rfl⟩ | hx
+        · rfl
+        · exact absurd (hj ▸ (List.of_mem_zip hx).1) hn.1
+      | succ j =>
+        simp only [List.getElem?_cons_succ] at hj ⊢
+        rcases hx with ⟨rfl, _⟩ | hx
+        · exact absurd (List.mem_of_getElem? hj) hn.1
+        · exact ih u hn.2 j hj hx
+
+theorem lookup_some_mem {β : Type} (l : List (String × β)) (k : String) (v : β) (h : l.lookup k = some v) : (k, v) ∈ l := by
+  induction l with
+  | nil => simp at h
+  | cons p t ih =>
+    obtain ⟨p1, p2⟩ := p
+    simp only [List.lookup_cons] at h
+    by_cases e : k == p1
+    · simp only [e, Option.some.injEq] at h; simp only [beq_iff_eq] at e; subst e; subst h; simp
+    · simp only [e] at h; exact List.mem_cons_of_mem _ (ih h)
+
+theorem lookup_exists_of_mem_keys {β : Type} (l : List (String × β)) (k : String) (h : k ∈ l.map (·.1)) :
+    ∃ v, l.lookup k = some v := by
+  induction l with
+  | nil => simp at h
+  | cons p t ih =>
+    obtain ⟨p1, p2⟩ := p
+    simp only [List.lookup_cons]
+    by_cases e : k == p1
+    · simp [e]
+    · simp only [e]
+      simp only [List.map_cons, List.mem_cons] at h
+      rcases h with rfl | h'
+      · simp at e
+      · exact ih h'
+
+theorem ordered_lengths {β : Type} (varied : List (String × List β)) (L : List String)
+    (h : ∀ k ∈ L, ∃ vals, varied.lookup k = some vals) :
+    (L.filterMap fun k => (varied.lookup k).map fun v => (k, v)).map (·.2.length) =
+      L.map fun k => match varied.lookup k with | some vals => vals.length | none => 1 := by
+  induction L with
+  | nil => rfl
+  | cons a t ih =>
+    obtain ⟨vals, hvals⟩ := h a (by simp)
+    simp only [List.filterMap_cons, hvals, Option.map_some, List.map_cons, List.cons.injEq, true_and]
+    exact ih (fun k hk' => h k (by simp [hk']))
+
+theorem perSubstanceVaried_ok_iff {α : Type} (s : RSys) (base : List α) (varied : List (String × List α)) :
+    (∃ r, perSubstanceVaried s base varied = .ok r) ↔ base.length = s.ns ∧ ∀ kv ∈ varied, kv.1 ∈ s.keys := by
+  simp only [perSubstanceVaried]
+  by_cases hl : base.length = s.ns
+  · simp only [hl, ne_eq, not_true_eq_false, ↓reduceIte, true_and]
+    cases hu : (varied.any fun kv => !s.keys.contains kv.1) with
+    | true =>
+      simp only [↓reduceIte, reduceCtorEq, exists_false, false_iff]
+      obtain ⟨kv, hkv, h⟩ := List.any_eq_true.mp hu
+      intro hall
+      have := hall kv hkv
+      simp [this] at h
+    | false =>
+      simp only [Bool.false_eq_true, ↓reduceIte, Except.ok.injEq, exists_eq', true_iff]
+      intro kv hkv
+      have := (List.any_eq_false.mp hu) kv hkv
+      simpa using this
+  · simp [hl]
+
+theorem perSubstanceVaried_spec {α : Type} (s : RSys) (base : List α) (varied : List (String × List α))
+    (rows : List (List α)) (vkeys : List String) (hk : s.keys.Nodup)
+    (h : perSubstanceVaried s base varied = .ok (rows, vkeys)) :
+    vkeys = s.keys.filter (fun k => varied.any fun kv => kv.1 == k) ∧
+    rows.length = (vkeys.map fun k => match varied.lookup k with | some vals => vals.length | none => 1).prod ∧
+    ∀ row ∈ rows, row.length = s.ns ∧
+      ∀ (j : Nat) (k : String) (x : α), s.keys[j]? = some k → row[j]? = some x →
+        ((∀ kv ∈ varied, kv.1 ≠ k) → base[j]? = some x) ∧
+        (∀ vals, varied.lookup k = some vals → x ∈ vals) := by
+  simp only [perSubstanceVaried] at h
+  split at h
+  · simp at h
+  · rename_i hl
+    split at h
+    · simp at h
+    · simp only [Except.ok.injEq, Prod.mk.injEq] at h
+      obtain ⟨hrows, hv⟩ := h
+      have hl' : base.length = s.keys.length := by
+        have : base.length = s.ns := by simpa using hl
+        simpa [RSys.keys, RSys.ns] using this
+      subst hv
+      have hlook : ∀ k ∈ s.keys.filter (fun k => varied.any fun kv => kv.1 == k), ∃ vals, varied.lookup k = some vals := by
+        intro k hkv
+        obtain ⟨_, hany⟩ := List.mem_filter.mp hkv
+        obtain ⟨kv, hkv', he⟩ := List.any_eq_true.mp hany
+        simp only [beq_iff_eq] at he
+        exact lookup_exists_of_mem_keys varied k (he ▸ List.mem_map_of_mem hkv')
+      have hord : ∀ k vals, (k, vals) ∈ ((s.keys.filter fun k => varied.any fun kv => kv.1 == k).filterMap
+            fun k => (varied.lookup k).map fun v => (k, v)) ↔
+          k ∈ s.keys.filter (fun k => varied.any fun kv => kv.1 == k) ∧ varied.lookup k = some vals := by
+        intro k vals
+        simp only [List.mem_filterMap, Option.map_eq_some_iff, Prod.mk.injEq]
+        constructor
+        · rintro ⟨k', hk', v, hlk, rfl, rfl⟩; exact ⟨hk', hlk⟩
+        · rintro ⟨h1, h2⟩; exact ⟨k, h1, vals, h2, rfl, rfl⟩
+      refine ⟨rfl, ?_, ?_⟩
+      · rw [← hrows, List.length_map, variedRows_length, ordered_lengths varied _ hlook]
+      · intro row hrow
+        rw [← hrows] at hrow
+        obtain ⟨row', hrow', rfl⟩ := List.mem_map.mp hrow
+        have hkeys := variedRows_keys _ _ row' hrow'
+        have hlen : row'.length = s.keys.length := by
+          have := congrArg List.length hkeys
+          simp only [List.length_map, List.length_zip] at this
+          omega
+        refine ⟨by simpa [RSys.keys, RSys.ns] using hlen, ?_⟩
+        intro j k x hj hx
+        -- the pair at position j
+        have hjl : j < row'.length := by
+          have := (List.getElem?_eq_some_iff.mp hj).1; omega
+        have hpair : row'[j] = (k, x) := by
+          have h1 : (row'.map (·.1))[j]? = some k := by
+            rw [hkeys]; simp only [List.map_fst_zip (by omega : s.keys.length ≤ base.length)]; exact hj
+          have h2 : (row'.map (·.2))[j]? = some x := hx
+          simp only [List.getElem?_map, List.getElem?_eq_getElem hjl, Option.map_some, Option.some.injEq] at h1 h2
+          exact Prod.ext h1 h2
+        have hmem : (k, x) ∈ row' := hpair ▸ List.getElem_mem hjl
+        rcases variedRows_entries _ _ row' hrow' (k, x) hmem with ⟨hb, hno⟩ | ⟨vals', hin, hxin⟩
+        · refine ⟨fun _ => zip_nodup_get s.keys base hk j k x hj hb, ?_⟩
+          intro vals hlk
+          exfalso
+          have hkv : k ∈ s.keys.filter (fun k => varied.any fun kv => kv.1 == k) := by
+            refine List.mem_filter.mpr ⟨List.mem_of_getElem? hj, ?_⟩
+            rw [List.any_eq_true]
+            exact ⟨(k, vals), lookup_some_mem varied k vals hlk, by simp⟩
+          exact hno (k, vals) ((hord k vals).mpr ⟨hkv, hlk⟩) rfl
+        · obtain ⟨hkv, hlk'⟩ := (hord k vals').mp hin
+          refine ⟨fun hnone => ?_, fun vals hlk => ?_⟩
+          · exact absurd rfl (hnone (k, vals') (lookup_some_mem varied k vals' hlk'))
+          · rw [hlk'] at hlk; simp only [Option.some.injEq] at hlk; exact hlk ▸ hxin
+
+
+theorem categorize_checks_ok_iff (s : RSys) (checks : List Check) :
+    (∃ c, categorize s checks = .ok c) ↔
+      ∃ ex, expand s.rxns = .ok ex ∧ ∀ ch ∈ checks, runCheck ⟨ex, s.substs⟩ ch = true := by
+  simp only [categorize]
+  cases hex : expand s.rxns with
+  | error e => simp
+  | ok ex =>
+    simp only [Except.ok.injEq, exists_eq_left']
+    rw [← firstFailing_none_iff]
+    simp only [RSys.make, substancesOf]
+    cases firstFailing ⟨ex, s.substs⟩ checks <;> simp
 
 end ChemModel.RSysGraph
